@@ -396,10 +396,79 @@ pub fn run(ctx: &Ctx) -> i32 {
         }
         let _ = std::fs::remove_dir_all(&root);
     }
-    meta.extra.insert("sanitizers".into(), json!("see DESIGN.md section 6: Miri / ThreadSanitizer runs of the concurrent workload are a separate thorough-tier step (tools/c15_sanitizers.sh) when the nightly toolchain is present"));
+    if ctx.replay.is_none() && std::env::var("VMON_SKIP_SANITIZERS").is_err() {
+        sanitizers(ctx, &mut acc);
+    }
     meta.assumptions = vec![
         "the baseline process is fresh and makes one call per pattern, so no history can have leaked into it".into(),
         "thread overlap is obtained by barriers and oversubscription; no sleeps are injected because solstat has no suspension point or lock between which a delay could be placed".into(),
     ];
     finish(ctx, acc, meta)
+}
+
+/// ThreadSanitizer (both tiers) and Miri (thorough) runs of the concurrent workload in /verif/harness-nightly,
+/// rebuilt from /repo's working tree.
+fn sanitizers(ctx: &Ctx, acc: &mut Acc) {
+    let tdir = std::env::var("VMON_TARGET_DIR").unwrap_or_else(|_| "target".to_string());
+    let tdir = if tdir.starts_with('/') { tdir } else { format!("{}/{}", VERIF_DIR, tdir) };
+    let manifest = format!("{}/harness-nightly/Cargo.toml", VERIF_DIR);
+    acc.cur_workload = "sanitizers".into();
+    // ---- ThreadSanitizer
+    let build = std::process::Command::new("cargo")
+        .args(["+nightly", "build", "-Zbuild-std", "--target", "x86_64-unknown-linux-gnu", "--release", "--offline", "--manifest-path", &manifest, "--target-dir", &format!("{}/tsan", tdir)])
+        .env("RUSTFLAGS", "-Zsanitizer=thread")
+        .env("CARGO_NET_OFFLINE", "true")
+        .output();
+    match build {
+        Ok(o) if o.status.success() => {
+            let bin = format!("{}/tsan/x86_64-unknown-linux-gnu/release/vmon-nightly", tdir);
+            match std::process::Command::new(&bin).arg("stress").env("TSAN_OPTIONS", "halt_on_error=0 exitcode=66").output() {
+                Ok(r) => {
+                    let err = String::from_utf8_lossy(&r.stderr).to_string();
+                    let out = String::from_utf8_lossy(&r.stdout).to_string();
+                    acc.eval();
+                    acc.cov("tsan:runs");
+                    let reports = err.matches("WARNING: ThreadSanitizer").count();
+                    acc.cov_n("tsan:reports", reports as u64);
+                    if reports > 0 || r.status.code() == Some(66) {
+                        acc.violation("sanitizer:tsan:data-race", json!({"reports": reports, "first_report": trunc(&err, 3000)}));
+                    } else if !r.status.success() {
+                        acc.violation("sanitizer:tsan-run:result-mismatch-under-threads", json!({"stdout": trunc(&out, 500), "stderr": trunc(&err, 1000), "exit": r.status.code()}));
+                    } else {
+                        acc.sample(json!({"tsan_run": out.trim()}));
+                    }
+                }
+                Err(e) => acc.inconclusive(format!("cannot run the ThreadSanitizer binary: {}", e)),
+            }
+        }
+        Ok(o) => acc.inconclusive(format!("ThreadSanitizer build failed: {}", trunc(&String::from_utf8_lossy(&o.stderr), 400))),
+        Err(e) => acc.inconclusive(format!("cannot start cargo +nightly: {}", e)),
+    }
+    // ---- Miri (thorough only: ~1 minute per seed)
+    if ctx.tier == Tier::Thorough {
+        let seeds = 8;
+        let r = std::process::Command::new("cargo")
+            .args(["+nightly", "miri", "run", "--offline", "--manifest-path", &manifest, "--target-dir", &format!("{}/miri", tdir)])
+            .env("MIRIFLAGS", format!("-Zmiri-disable-isolation -Zmiri-many-seeds=0..{}", seeds))
+            .env("CARGO_NET_OFFLINE", "true")
+            .env_remove("RUSTFLAGS")
+            .output();
+        match r {
+            Ok(o) => {
+                let err = String::from_utf8_lossy(&o.stderr).to_string();
+                let out = String::from_utf8_lossy(&o.stdout).to_string();
+                let ok_runs = out.matches("mismatches=0").count();
+                acc.cov_n("miri:seeds-completed", ok_runs as u64);
+                acc.evals_n(ok_runs as u64);
+                if err.contains("Undefined Behavior") || err.contains("Data race detected") {
+                    acc.violation("sanitizer:miri:undefined-behaviour-or-data-race", json!({"stderr": trunc(&err, 3000)}));
+                } else if out.contains("mismatches=") && ok_runs < out.matches("mismatches=").count() {
+                    acc.violation("sanitizer:miri-run:result-mismatch-under-threads", json!({"stdout": trunc(&out, 800)}));
+                } else if !o.status.success() {
+                    acc.inconclusive(format!("miri run failed without a diagnosis: {}", trunc(&err, 400)));
+                }
+            }
+            Err(e) => acc.inconclusive(format!("cannot start cargo +nightly miri: {}", e)),
+        }
+    }
 }
